@@ -39,7 +39,9 @@ namespace cnl {
         {
             static_assert(is_integral_unsigned<T>(), "T must be unsigned integer");
 
-            return static_cast<T>((x << (s % width)) | (x >> (width - (s % width))));
+            // a shift by the full width is undefined
+            auto const r = s % width;
+            return static_cast<T>(r ? ((x << r) | (x >> (width - r))) : x);
         }
 
         template<typename T>
@@ -47,7 +49,9 @@ namespace cnl {
         {
             static_assert(is_integral_unsigned<T>(), "T must be unsigned integer");
 
-            return static_cast<T>((x >> (s % width)) | (x << (width - (s % width))));
+            // a shift by the full width is undefined
+            auto const r = s % width;
+            return static_cast<T>(r ? ((x >> r) | (x << (width - r))) : x);
         }
 
         template<typename T>
